@@ -277,7 +277,7 @@ class DictReader:
                 for ref in _refs:
                     if ref in references_resolved:
                         expression = re.sub(
-                            pattern=f"{re.escape(pattern=ref)}",
+                            pattern=f"{re.escape(pattern=ref)}(?!\\w)",
                             repl=str(references_resolved[ref]),
                             string=expression,
                         )
